@@ -108,7 +108,9 @@ impl ShimTrie {
         ensures r@.len() == special_len(t), 4 <= r@.len() <= 13,
     { unimplemented!() }
 }
-pub struct ShimParser { pub ghost rolled: Seq<int>, pub ghost eos_scans: nat, pub ghost will_fail: bool }
+/// `raw_accepting` = what the Earley parser itself answers (it has already been advanced over forced bytes);
+/// the engine's answer (TokenParser::is_accepting, `tp_accepting`) additionally requires that no forced bytes are pending
+pub struct ShimParser { pub ghost rolled: Seq<int>, pub ghost eos_scans: nat, pub ghost will_fail: bool, pub ghost raw_accepting: bool }
 impl ShimParser {
     /// Parser::rollback (its effect on the parser state is proved in rollback_v); may fail (parser error, grammar cannot roll back)
     #[verifier::external_body]
@@ -120,6 +122,11 @@ impl ShimParser {
     #[verifier::external_body]
     pub fn scan_eos(&mut self) -> (r: bool)
         ensures final(self).rolled == old(self).rolled,
+    { unimplemented!() }
+    /// Parser::is_accepting - the raw Earley answer; NOT what decides whether EOS may be committed
+    #[verifier::external_body]
+    pub fn is_accepting(&mut self) -> (r: bool)
+        ensures r == old(self).raw_accepting, *final(self) == *old(self),
     { unimplemented!() }
     #[verifier::external_body]
     pub fn log_row_infos(&mut self, lbl: &str)
@@ -140,6 +147,9 @@ pub struct TokenParser {
     pub forced_by_id: Vec<usize>,
     pub eos_tokens: Vec<TokenId>,
     pub ghost cleared: nat,
+    /// what TokenParser::is_accepting reports in this state: parser accepting AND no forced bytes pending (its formula is
+    /// checked on the real text in unit stopdec_k)
+    pub ghost tp_accepting: bool,
 }
 
 /// R24: `v.retain(|&idx| idx < n)`
@@ -270,7 +280,8 @@ impl TokenParser {
     { unimplemented!() }
     #[verifier::external_body]
     pub fn is_accepting(&mut self) -> (r: bool)
-        ensures final(self).llm_tokens == old(self).llm_tokens, final(self).llm_bytes == old(self).llm_bytes, final(self).eos_without_bytes == old(self).eos_without_bytes,
+        ensures r == old(self).tp_accepting, final(self).tp_accepting == old(self).tp_accepting,
+            final(self).llm_tokens == old(self).llm_tokens, final(self).llm_bytes == old(self).llm_bytes, final(self).eos_without_bytes == old(self).eos_without_bytes,
             final(self).parser.rolled == old(self).parser.rolled,
     { unimplemented!() }
     #[verifier::external_body]
@@ -295,7 +306,9 @@ impl TokenParser {
         // an EOS accepted at the end of the grammar is recorded with zero bytes
         res is Ok && final(self).eos_without_bytes@.len() > 0 ==>
             final(self).llm_tokens@ == old(self).llm_tokens@.push(token) && final(self).llm_bytes@ == old(self).llm_bytes@
-            && final(self).eos_without_bytes@ == seq![old(self).llm_tokens@.len() as usize] && old(self).eos_tokens@.contains(token),
+            && final(self).eos_without_bytes@ == seq![old(self).llm_tokens@.len() as usize] && old(self).eos_tokens@.contains(token)
+            // ... and only when the ENGINE reports the state as accepting (no forced text pending), not merely the raw parser
+            && old(self).tp_accepting,
         // not callable when fresh or stopped, or when the token budget is used up
         (old(self).is_fresh || old(self).stop_reason != StopReason::NotStopped || old(self).max_tokens_total == 0) ==> res is Err,
 //@ body_start
